@@ -31,7 +31,7 @@ Record MInv (s : rstate) (m : mstate) : Prop := {
   k_rhn : forall t, m_rh_n m t <= nexth s
 }.
 
-Lemma minv_init f4 f14 f15 : MInv (rinit f4 f14 f15) minit.
+Lemma minv_init f4 f14 f15 f16 : MInv (rinit f4 f14 f15 f16) minit.
 Proof.
   constructor; simpl; try reflexivity; try lia; try congruence; try discriminate;
     try (intros; discriminate); try (intros; reflexivity); try (intros; lia).
@@ -131,10 +131,5 @@ Proof.
     + intros h'. rewrite F10. unfold upd. destruct (Nat.eqb h' h) eqn:Q; [now rewrite S0|apply K4].
 Qed.
 
-Lemma cl_mframe s me p c s1 p' : cl_step s me p c = Some (s1, p') ->
-  nexth s1 = nexth s /\ hs s1 = hs s /\ pubClosed s1 = pubClosed s /\ thr s1 = thr s /\ isRunning s1 = isRunning s
-  /\ mainp s1 = mainp s /\ maint s1 = maint s /\ run_n s1 = run_n s.
-Proof.
-  unfold cl_step. intros X. destruct p, c; try discriminate X; destr X; injection X as <- _; simpl; repeat split; auto.
-Qed.
+
 
